@@ -9,6 +9,6 @@ CONSTANTS
   DCumulative = FALSE
   DSnapDeletes = TRUE
   DTolerant = FALSE
-INVARIANTS TypeOK Clean
+INVARIANTS TypeOK Clean Converged
 VIEW View
 CHECK_DEADLOCK FALSE
